@@ -25,6 +25,7 @@ REGISTRY = {
     "C13": ("A", "vf.harness.C13"),
     "C14": ("A", "vf.harness.C14"),
     "C15": ("A", "vf.harness.C15"),
+    "C16": ("A", "vf.harness.C16"),
     "C19": ("A", "vf.harness.C19", "vf.engine_b.c19"),
     "C20": ("B", "vf.engine_b.c20"),
 }
